@@ -34,13 +34,13 @@ theorem wid_bodies_as_expected :
 
 /-- The regenerated bodies parse to the statement trees the execution lemmas are about. -/
 theorem gen_bodies_parsed : genB = expB := by
-  obtain ⟨h1, h2, h3, h4, h5, h6, h7, h8, h9, h10, h11, h12, h13, h14, h15, h16, _, h18⟩ := wid_bodies_as_expected
+  obtain ⟨h1, h2, h3, h4, h5, h6, h7, h8, h9, h10, h11, h12, h13, h14, h15, h16, h17, h18⟩ := wid_bodies_as_expected
   unfold genB expB
-  rw [h1, h2, h3, h4, h5, h6, h7, h8, h9, h10, h11, h12, h13, h14, h15, h16, h18,
+  rw [h1, h2, h3, h4, h5, h6, h7, h8, h9, h10, h11, h12, h13, h14, h15, h16, h17, h18,
     WidTrees.parse_lmin, WidTrees.parse_lmax, WidTrees.parse_lnew, WidTrees.parse_lindex, WidTrees.parse_ldraw, WidTrees.parse_ldown,
     WidTrees.parse_lup, WidTrees.parse_lhome, WidTrees.parse_lend, WidTrees.parse_lpgdn, WidTrees.parse_lpgup,
     WidTrees.parse_lset, WidTrees.parse_pdraw, WidTrees.parse_play, WidTrees.parse_pdown, WidTrees.parse_pup,
-    WidTrees.parse_bdraw]
+    WidTrees.parse_lapp, WidTrees.parse_bdraw]
 
 /-- The index expressions the extractor translates (`Gen/ListFacts.lean`, used by `SimpleList.gen`) are the ones the
     interpreted bodies compute. -/
@@ -175,7 +175,7 @@ theorem pager_scroll_body_eq_model (segs : List (List Pager.Ch)) (s : Pager.St) 
     character to the line and the line to `m.lines` WITHOUT replacing `l` by a fresh `&line{}` leaves the SAME line object
     in `m.lines` twice — both entries show both characters, as in Go. -/
 example :
-    (match exec ⟨0, 0, [[⟨[97], 1⟩, ⟨[98], 1⟩]], noCall⟩
+    (match exec ⟨0, 0, [[⟨[97], 1⟩, ⟨[98], 1⟩]], lineCalls genB⟩
       (parseBody [
         ⟨0, .assign, (.var "d.lines"), (.lit "[]*line{}")⟩,
         ⟨0, .define, (.var "v0"), (.un "&" (.lit "line{}"))⟩,
